@@ -31,6 +31,10 @@
 (*                   fallback and returns the low half                     *)
 (*   "ExecHiNone"    exec_hi is not handled by either store (panic)        *)
 (*   "EmuExecLoNone" emu WriteReg(exec_lo, RegCount < 2) is not handled    *)
+(*   "EmuPoolUnderwipe" (not in the tree; the shape of a seeded change)    *)
+(*                   the emulator recycles the files of retired wavefronts *)
+(*                   and wipes only the first nv * lanes dwords of the     *)
+(*                   lane-major vector file                                *)
 (* With Deviations = {} (the intended design) every property holds; with   *)
 (* the pinned tree's set TLC produces the counterexamples that the         *)
 (* harness replays on the real code.                                       *)
@@ -144,8 +148,15 @@ PDispatch(w, a, l, v0s) ==
                  ELSE <<>>
          lc == [x \in Live \cup {w} |-> IF x = w THEN l ELSE loc[x]]
          fresh == [x \in 0..(VSize - 1) |-> Zero]
-         base == IF Tim THEN vfile[l.vf] ELSE fresh
-     IN /\ Dispatch(w, a, init)
+         \* emu.NewWavefront makes new files; the recycling variant takes the file of a retired wavefront
+         donors == IF ~Tim /\ "EmuPoolUnderwipe" \in Deviations THEN WFs \ Live ELSE {w}
+     IN \E u \in donors :
+        LET base == IF Tim THEN vfile[l.vf]
+                    ELSE IF "EmuPoolUnderwipe" \in Deviations
+                         THEN [x \in 0..(VSize - 1) |-> IF x < a.nv * NLanes THEN Zero ELSE vfile[u][x]]
+                         ELSE fresh
+        IN
+        /\ Dispatch(w, a, init)
         /\ loc' = lc
         /\ vfile' = IF a.nv > 0
                     THEN [vfile EXCEPT ![l.vf] = [x \in DOMAIN base |->
@@ -213,6 +224,15 @@ Alias == \A w \in Live : \A o \in OpsOf(alloc[w]) :
             PRead(w, o) = [j \in 1..Len(OpCells(o)) |-> PRead(w, Single(o, j))[1]]
 
 OwnCells(a) == Specials \cup 0..(a.ns - 1) \cup {VCell(n, i) : n \in Lanes, i \in 0..(a.nv - 1)}
+
+\* lifetime: a wavefront that has just been dispatched holds the dispatch-defined
+\* values (the work-item ids in v0) and Zero in every other register, whatever
+\* earlier wavefronts - retired or alive - wrote
+FreshCells ==
+  last.t = "D" =>
+    \A c \in OwnCells(alloc[last.w]) :
+      PGet(sfile, vfile, sp, loc, last.w, c) =
+        IF c >= 256 /\ c % 256 = 0 THEN V0Of(last.w)[(c \div 256) - 1] ELSE Zero
 
 \* no step disturbs any other register, lane or wavefront: every cell of a
 \* wavefront that lives before and after the step keeps its value unless it
